@@ -1080,11 +1080,11 @@ func init() {
 		Rule: "case = source text rendered from a generated token AST (lists, dotted pairs, strings and |symbols| with escapes and raw UTF-8, " +
 			"#\\ characters, integers/ratios/floats under *read-base* 2/8/10/16/36 and all four *read-default-float-format*, #b #o #x #nr, #( #nA #* #C #' ' ` , ,@, " +
 			"; and #| |# comments, @time tokens), <= 120 bytes (4% long texts <= 420), with its lexical segments, form ends and expected objects; " +
-			"the first 420 cases are the same for every seed. Per case: ReadString vs expectation; ReadOne and read-from-string object+position per form; " +
+			"the first block (every ordered pair of form kinds, literal probes for digits/letters at the edge of every *read-base* and barred punctuation symbols in every list position, 300 fixed-seed texts) is the same for every seed. Per case: ReadString vs expectation; ReadOne and read-from-string object+position per form; " +
 			"cl:read (seekable and byte-wise stream); ReadStream for EVERY single cut position under both EOF conventions, every fixed chunk size, " +
 			"every pair of cuts of short texts, 200 random multi-cuts, empty reads, slip.InputStream wrapper, push/each/one-form variants, padding to the natural 64 KiB block boundary; every proper prefix (truncation). " +
 			"About 12% of cases hold exactly one construct of the avoid set (dirty stream: quote-like prefix before a non-symbol atom, .5 floats, " +
-			"10. under a non-decimal base); the clean stream avoids them and the constructs slip rejects loudly in every delivery (see meta note). Distinct = distinct case JSON; non-trivial = text of >= 3 bytes",
+			"10. under a non-decimal base, decimal digits outside *read-base*, |.| in the dot position of a list); the clean stream avoids them and the constructs slip rejects loudly in every delivery (see meta note). Distinct = distinct case JSON; non-trivial = text of >= 3 bytes",
 		N:     nCases,
 		Gen:   gen,
 		Exec:  exec,
